@@ -20,9 +20,25 @@ func Render(node Node, w io.Writer, vars map[string]any, c Config) Error {
 		return err
 	}
 	if _, err := tw.Flush(); err != nil {
-		panic(err)
+		return wrapRenderError(err, flushLocation(node))
 	}
 	return nil
+}
+
+// flushLocation finds a source location to report a failed flush of the
+// output writer at: the last node that has one.
+func flushLocation(nodes ...Node) parser.Locatable {
+	for i := len(nodes) - 1; i >= 0; i-- {
+		switch n := nodes[i].(type) {
+		case *SeqNode:
+			if loc := flushLocation(n.Children...); loc != invalidLoc {
+				return loc
+			}
+		case *BlockNode, *TagNode, *TextNode, *ObjectNode:
+			return n
+		}
+	}
+	return invalidLoc
 }
 
 // RenderSequence renders a sequence of nodes.
@@ -37,7 +53,7 @@ func (c nodeContext) RenderSequence(w io.Writer, seq []Node) Error {
 		}
 	}
 	if _, err := tw.Flush(); err != nil {
-		panic(err)
+		return wrapRenderError(err, flushLocation(seq...))
 	}
 	return nil
 }
@@ -60,7 +76,8 @@ func (n *RawNode) render(w *trimWriter, ctx nodeContext) Error {
 	for _, s := range n.slices {
 		_, err := io.WriteString(w, s)
 		if err != nil {
-			return wrapRenderError(err, n)
+			// a raw node has no source location of its own
+			return wrapRenderError(err, invalidLoc)
 		}
 	}
 	return nil
@@ -101,7 +118,8 @@ func (n *TextNode) render(w *trimWriter, _ nodeContext) Error {
 
 func (n *TrimNode) render(w *trimWriter, _ nodeContext) Error {
 	if n.TrimDirection == parser.Left {
-		return wrapRenderError(w.TrimLeft(), n)
+		// a trim node has no source location of its own
+		return wrapRenderError(w.TrimLeft(), invalidLoc)
 	} else {
 		w.TrimRight()
 		return nil
